@@ -189,7 +189,7 @@ def scored_instances(tier):
         code = 0
         for o in reversed(ops):
             code = code * 16 + o
-        name = "scored_i%d_r%d_l%d_%s%s" % (items, reserved, lens, "".join("%x" % o for o in ops), "_entries" if dbg == 16 else ("_c19" if dbg & 1 else ""))
+        name = "scored_i%d_r%d_l%d_%s%s" % (items, reserved, lens, "".join("%x" % o for o in ops), "_entries" if dbg == 16 else ("_c19" if dbg & 1 else ("_rf" if dbg & 32 else "")))
         # a timed-out lock attempt (op 8): CBMC reports invalid pointers in the later ticks of such schedules that neither the
         # native run nor Miri (same schedule, same shims) shows - those instances do not speak for C06, the owner of memory safety;
         # instances with a restart speak for C12 instead of C06 / C07 (one property per shared assertion, see scored_h.rs)
@@ -206,6 +206,9 @@ def scored_instances(tier):
     # calibration: one pattern edit + settle takes 25 - 40 s; every further settle multiplies the formula (two
     # settles with a reserved slot or three settles: > 12 min, 6 GB) - those stay out of both tiers
     # (entries mode - dbg 16: every item matches, entries read back - was measured as well: > 8 min per instance; not registered)
+    if not q:
+        # two in-flight items recorded right chunk first, then a rescore (defect 72ee16d); heavy: 20+ min
+        add(1, 2, 0, [1, 7, 3, 7], 40)
     if q:
         add(2, 0, 0b01, [1, 7])
         add(3, 0, 0b001, [4, 7])
